@@ -362,6 +362,7 @@ def attach(tr):
                         TR.placed_trades.add(id(trade))
                         if rec["trade_status"] == "COMPLETE":
                             TR.reused_complete_trades.add(id(trade))
+                            TR.counters["reused_complete_trades"] += 1
                     else:
                         order._vf_replacement = True
                 rec["after"] = world_view(order, market)
@@ -1048,6 +1049,16 @@ class ScriptedStrategy(BaseStrategy):
         if (kind, n) in self.raise_at:
             self.tr.injected.append({"seq": self.tr.nseq(), "tick": self.tr.tick, "strategy": self.name, "kind": kind, "n": n})
             raise ValueError("injected in %s #%d of %s" % (kind, n, self.name))
+
+    def start(self, flumine):
+        if ("start", 0) in self.raise_at:
+            self.tr.injected.append({"seq": self.tr.nseq(), "tick": self.tr.tick, "strategy": self.name, "kind": "start", "n": 0})
+            raise ValueError("injected in start of %s" % self.name)
+
+    def finish(self, flumine):
+        if ("finish", 0) in self.raise_at:
+            self.tr.injected.append({"seq": self.tr.nseq(), "tick": self.tr.tick, "strategy": self.name, "kind": "finish", "n": 0})
+            raise ValueError("injected in finish of %s" % self.name)
 
     def process_new_market(self, market, market_book):
         self._enter("new_market", market, market_book)
